@@ -1,9 +1,9 @@
 SPECIFICATION Spec
 CONSTANTS
   W = 4
-  N = 4
-  Leads = {0, 1, 9, 100}
+  N = 5
+  Leads = {0, 1, 100}
   Signs = {0, 50}
-  Amounts_ = {120, 1000000}
+  Amounts_ = {150, 1000000}
 INVARIANT Inv
 CHECK_DEADLOCK FALSE
